@@ -28,6 +28,22 @@ func drawFaultCase(t *rapid.T) *core.Case {
 		c = drawGeneral(t, gen.Profile{MaxDepth: 1}, wo, gen.DataOpts{Specials: true, MaxSeries: 10, MinSeries: 4, Histogram: true, Metrics: []string{"m", "m", "n"}})
 		c.Query = rapid.SampledFrom(planShapes).Draw(t, "planshape")
 	}
+	if rapid.IntRange(0, 7).Draw(t, "manyseries") == 0 {
+		// many series per shard, few steps (operators may treat large shards differently)
+		w := gen.DrawWindow(t, gen.WindowOpts{MaxSteps: 3, NoTail: true})
+		ds := gen.DrawDataset(t, w, gen.DataOpts{MaxSeries: 200, MinSeries: 64, Metrics: []string{"m"}, Lookback: 300000})
+		for i := range ds.Series {
+			// make the label sets distinct beyond the small label alphabet
+			ds.Series[i].Labels = append(ds.Series[i].Labels, core.Label{N: "id", V: string(rune('a'+i%26)) + string(rune('a'+i/26))})
+			if len(ds.Series[i].Samples) > 12 {
+				ds.Series[i].Samples = ds.Series[i].Samples[len(ds.Series[i].Samples)-12:]
+			}
+		}
+		c.Series = ds.Series
+		c.Start, c.End, c.Step = w.Start, w.End, w.Step
+		c.Query = rapid.SampledFrom([]string{"m", "sum(m)", "sum by (a) (m)", "rate(m[1m])", "m + m", "topk(3, m)", "-m"}).Draw(t, "bigq")
+		c.Procs = rapid.SampledFrom([]int{1, 2, 4}).Draw(t, "bigprocs")
+	}
 	if os.Getenv("VERIF_TIER") == "thorough" {
 		c.Mode = "thorough"
 	}
@@ -96,7 +112,10 @@ func TestC14(t *testing.T) {
 			c.End = c.Start + int64(rapid.IntRange(31, 70).Draw(t, "moresteps"))*c.Step
 		}
 		if rapid.IntRange(0, 3).Draw(t, "deadline") == 0 {
-			c.Delay = 1
+			c.Note = "deadline"
+		}
+		if rapid.IntRange(0, 3).Draw(t, "delayscript") == 0 && len(c.Series) < 30 {
+			c.Delay = uint64(rapid.IntRange(1, 1<<20).Draw(t, "delay"))
 		}
 		return c
 	})
